@@ -9,7 +9,7 @@ from ..cfacts import CUnit, dispatcher_of, call_args, callee, int_value, is_assi
 from ..core import AnalysisError, Report
 from ..linexpr import Env, c_ir, py_ir, to_lin
 from ..pycfg import path_to, run_typestate
-from ..pyfacts import eval_int_expr, Repo, dispatch_return, inline_pure_temps, temp_values, dotted, enclosing_handlers, handler_types, norm, walk_no_nested
+from ..pyfacts import eval_int_expr, expand_private_calls, Repo, dispatch_return, inline_pure_temps, temp_values, dotted, enclosing_handlers, handler_types, norm, walk_no_nested
 from ..spec import machine as M
 from ..steps import (CLoop, PyLoop, RUN_REL, READER_REL, c_assigned, c_mentions, event_nodes, guard_interval,
                      path_conditions, py_assigned, py_mentions)
@@ -791,14 +791,13 @@ def rule_widths(rep: Report, repo: Repo, cu: CUnit) -> None:
     for rel, fn in (('flipjump/fjm/fjm_reader.py', 'Reader._read_decompressed_data'),
                     ('flipjump/fjm/fjm_writer.py', 'Writer.write_to_file')):
         f = repo.func(rel, fn)
-        tables = [n for n in ast.walk(f) if isinstance(n, ast.Dict) and n.keys and all(isinstance(k, ast.Constant) and isinstance(k.value, int) for k in n.keys)]
-        if not tables:
-            raise AnalysisError(f'{fn}: word-code table not found')
-        import struct
-        tab = {k.value: v.value for k, v in zip(tables[0].keys, tables[0].values)}   # type: ignore[union-attr]
-        ok = set(tab) == set(ref) and all(struct.calcsize('<' + c) * 8 == w for w, c in tab.items())
-        rep.check(ok, 'C01.WIDTHS', f'{fn}:word-codes', f'{tab}', f'{rel}:{f.lineno}',
-                  expected='one unsigned struct code of w/8 bytes per supported width')
+        from ..wordcodec import word_codec, codec_ok
+        f = expand_private_calls(repo, rel, f, fn.split('.')[0], depth=2)          # extracted pack / unpack helpers read in place
+        wc = word_codec(f, ref)             # a struct code per width, or int.from_bytes / to_bytes with a width-derived byte count
+        if wc is None:
+            raise AnalysisError(f'{fn}: word codec not found')
+        rep.check(codec_ok(wc[0], ref), 'C01.WIDTHS', f'{fn}:word-codes', wc[1], f'{rel}:{f.lineno}',
+                  expected='one unsigned little-endian encoding of w/8 bytes per supported width')
     cli = repo.func('flipjump/flipjump_cli.py', 'add_assemble_only_arguments')
     choices = None
     for c in ast.walk(cli):
